@@ -23,6 +23,12 @@ VERIF = Path(__file__).resolve().parent.parent
 LEAN_DIR = VERIF / 'lean'
 DRIVER = LEAN_DIR / '.lake' / 'build' / 'bin' / 'phyverif'
 REPO = Path(os.environ.get('PHYLIB_REPO', '/repo'))
+if 'PHYLIB_REPO' in os.environ:
+    # evaluation of a seeded change in a scratch worktree: the real code is imported from there instead of the
+    # editable install of /repo (PYTHONPATH precedes site-packages; worker processes inherit it). Registered
+    # checks never set this variable, so they always run /repo's working tree.
+    sys.path.insert(0, str(REPO))
+    os.environ['PYTHONPATH'] = str(REPO) + os.pathsep + os.environ.get('PYTHONPATH', '')
 ALLOWED_AXIOMS = {'propext', 'Classical.choice', 'Quot.sound'}
 FORBIDDEN = re.compile(
     r'\bsorry\b|\badmit\b|^\s*axiom\s|native_decide|bv_decide|implemented_by|\bunsafe\s|maxHeartbeats\s+0\b')
@@ -319,6 +325,10 @@ def scratch_dir():
 def repo_head():
     rc, out = _run(['git', '-C', str(REPO), 'rev-parse', 'HEAD'])
     rc2, st = _run(['git', '-C', str(REPO), 'status', '--porcelain', '--untracked-files=no'])
+    import phylib
+    where = Path(phylib.__file__).resolve().parent.parent
+    if where != REPO.resolve():
+        raise Infra('the real code was imported from %s, not from %s' % (where, REPO))
     return out.strip() + ('+dirty' if st.strip() else '')
 
 
